@@ -242,7 +242,7 @@ pub fn run(seed: u64, ntraces: usize) {
                 }
                 else if d == 10 {   // inbound battery: every routing variant for a transfer without data, the main ones for transfers with data and deployments
                     for v in 0..21u64 { script.push(1600 + v); }
-                    script.extend([1700u64, 20, 20, 1702, 1708, 1709, 1711, 1713, 1714, 1716, 1808, 1800, 1802, 1809, 1811, 1813, 1815, 1816, 1818, 1718, 195, 198]);
+                    script.extend([1700u64, 20, 20, 1702, 1708, 1709, 1711, 1713, 1714, 1716, 1808, 1800, 1802, 1809, 1811, 1813, 1815, 1816, 1818, 1718, 195, 198, 2300, 2305, 2316, 2309, 2302, 2314]);
                 }
                 else if d == 11 {   // the service is paused while a transfer with data is in flight: failed and successful delivery, direct and hub-wrapped
                     script.extend([1700u64, 10, 21, 20, 10, 1702, 10, 20, 20, 10, 1700, 21, 10, 20, 10, 1700, 1700, 21, 24, 20, 20]);
@@ -286,7 +286,7 @@ pub fn run(seed: u64, ntraces: usize) {
                         g.its_tx("deployRemoteCanonical", &u2, "deployRemoteCanonicalInterchainToken", vec![tk.clone(), vec![]], gasv, &[], json!({"token": hx(&tk), "dchain": ""})); }
                     // (b) the trusted address of the source chain is removed / replaced while a transfer with data is in flight and restored afterwards:
                     //     the delivered message must end up executed and a second execute must be refused
-                    script.extend([22u64, 56, 1700, 51, 25, 24, 53, 197, 1700, 25, 54, 24, 53, 197, 1702, 52, 25, 24, 55, 197, 70, 26, 26, 57, 26, 26, 77, 78, 26]);
+                    script.extend([22u64, 56, 80, 1700, 51, 25, 24, 53, 197, 1700, 25, 54, 1600, 24, 53, 197, 1702, 52, 25, 24, 55, 197, 70, 26, 26, 57, 26, 26, 77, 78, 26]);
                 }
                 else {              // d == 13: message-type words outside the known range, direct and hub-wrapped
                     for i in 0..6u64 { script.push(2000 + i); script.push(2100 + i); }
@@ -310,7 +310,7 @@ pub fn run(seed: u64, ntraces: usize) {
             // 1<a><vv>: inbound message kind a (6, 7, 8) in routing variant vv; 20<i> / 21<i>: message-type word i (direct / hub-wrapped); 3<shape><chain> / 35..: outbound transfer / call; 190..192: inbound link / deploy for an already bound token id (direct, hub-wrapped, deploy)
             let mut fvar: Option<u64> = None; let mut fbound: Option<u64> = None;
             let mut ftype: Option<u64> = None; let mut fshape: Option<(u64, u64)> = None;
-            let mut fdeploy = false;
+            let mut fdeploy = false; let mut flink = false;
             if a == 196 { // a second, separately approved deploy message for a token id whose manager already recorded its token: refused
                 g.msg += 1; let id = format!("msg-{}", g.msg).into_bytes();
                 if let Some(tk) = g.toks.iter().rev().find(|t| t.kind == "remote-native") { let tid = tk.id.clone();
@@ -346,6 +346,12 @@ pub fn run(seed: u64, ntraces: usize) {
                         g.its_tx("execute", &u2, "execute", vec![b"ethereum".to_vec(), ide.clone(), b"0xITSeth".to_vec(), forged.clone()], ISSUE_COST, &[],
                             json!({"chain": hx(b"ethereum"), "id": hx(&ide), "src": hx(b"0xITSeth"), "payload": hx(&forged), "ph": hx(&keccak(&forged)), "label": "in8/forged-on-spent-id"})); } }
                 continue; }
+            if a == 80 { // an outbound transfer of the EGLD token (if registered) with its gas paid in EGLD: the native gas event names the same destination as the gateway event
+                if let Some(tk) = g.toks.iter().find(|t| t.token.as_deref() == Some(&b"EGLD"[..])) { let tid = tk.id.clone(); let u = g.users[0].clone();
+                    for (dchain, gasv) in [(&b"ethereum"[..], 7u64), (&b"avalanche"[..], 9u64)] {
+                        g.its_tx("transfer", &u, "interchainTransfer", vec![tid.clone(), dchain.to_vec(), b"0xdestination".to_vec(), vec![], big(gasv)], 50 + gasv, &[],
+                            json!({"token_id": hx(&tid), "dchain": hx(dchain), "daddr": hx(b"0xdestination"), "metadata": "", "gas": gasv.to_string()})); } }
+                continue; }
             if a == 28 { g.now += 21600; let now = g.now; g.w.set_time(now); continue; }      // six hours pass (a new flow epoch; any timeout has expired)
             if a == 71 { let ow = g.owner.clone();      // the owner registers the hub chain ITSELF with the routing marker: it still is no destination
                 g.its_tx("setTrusted", &ow, "setTrustedAddress", vec![b"axelar".to_vec(), b"hub".to_vec()], 0, &[], json!({"chain": hx(b"axelar"), "a": hx(b"hub")})); continue; }
@@ -376,6 +382,7 @@ pub fn run(seed: u64, ntraces: usize) {
             let a = if a == 193 { fdeploy = true; fvar = Some(0); 8 } else { a };
             let a = if (190..=192).contains(&a) { fbound = Some(a - 190); fvar = Some(if a == 191 { 2 } else { 0 }); 8 }
                     else if a >= 3000 { let c = a - 3000; fshape = Some(((c % 500) / 10, c % 10)); if c >= 500 { 5 } else { 4 } }
+                    else if a >= 2300 && a < 2400 { flink = true; fvar = Some(a - 2300); 8 }      // 23<vv>: inbound LINK_TOKEN message in routing variant vv
                     else if a >= 2000 { let c = a - 2000; ftype = Some(c % 100); fvar = Some(if c >= 100 { 2 } else { 0 }); 6 }
                     else if a >= 1000 { fvar = Some((a - 1000) % 100); (a - 1000) / 100 } else { a };
             match a {
@@ -466,7 +473,7 @@ pub fn run(seed: u64, ntraces: usize) {
                                transfer_payload(&tid, &osrc, &recipient, amount, b"") }
                         7 => { let osrc = match r.below(4) { 0 => r.bytes(33), _ => b"0xsender".to_vec() }; let data = match r.below(4) { 0 => r.bytes(70), 1 => r.bytes(32), _ => b"with-data".to_vec() };
                                transfer_payload(&tid, &osrc, g.dest.as_bytes(), amount, &data) }
-                        _ => if fdeploy { deploy_payload(&r.bytes(32), b"Remote", b"RMT", 6, g.users[1].as_bytes()) } else if fbound == Some(2) { deploy_payload(&tid, b"Remote", b"RMT", 6, &[]) } else if fbound.is_none() && r.chance(2, 3) {
+                        _ => if flink { link_payload(&r.bytes(32), 2, b"0xsrc", &tok2[..], &g.operator.to_vec()) } else if fdeploy { deploy_payload(&r.bytes(32), b"Remote", b"RMT", 6, g.users[1].as_bytes()) } else if fbound == Some(2) { deploy_payload(&tid, b"Remote", b"RMT", 6, &[]) } else if fbound.is_none() && r.chance(2, 3) {
                                 let existing: Vec<&Tok> = g.toks.iter().filter(|t| t.kind == "remote-native").collect();
                                 let tid2 = if !existing.is_empty() && r.chance(2, 3) { existing[0].id.clone() } else { r.bytes(32) };
                                 let minter = match r.below(4) { 0 => vec![], 1 => vec![9, 9], 2 => { let mut v = r.pick(&g.users).to_vec(); v.push(1); v }, _ => r.pick(&g.users).to_vec() };
